@@ -192,8 +192,8 @@ Theorem accept_iff_coercible_partial_proof : forall S reparse vds ms,
     json_nodup (JObj ms) = true ->            (* no duplicate keys in the variables JSON *)
     vars_nodup vds = true ->                  (* variable names differ *)
     no_upload_ref S vds = true ->             (* excludes upload-exempt-from-non-null and remap-name-collision-upload *)
-    forallb (var_default_ok go_quirks S weak_strict) vds = true ->
-                                              (* operation validity: variable defaults are valid for their type *)
+    forallb (var_default_ok S weak) vds = true ->
+                                              (* operation validity: a variable's default is a value of its type (full reading: it may need list coercion) *)
     normalise go_quirks S reparse vds ms <> NFuel ->   (* the model's recursion budget for nested defaults suffices *)
     (accepts go_quirks S reparse vds (JObj ms) = true <-> coercible_all weak S vds (JObj ms) = true).
 Proof.
@@ -208,7 +208,7 @@ Theorem accept_iff_coercible_repaired_proof : forall S reparse vds ms,
     json_nodup (JObj ms) = true ->
     vars_nodup vds = true ->
     no_upload_ref S vds = true ->             (* only for the variables mapper: Upload variables are not renamed *)
-    forallb (var_default_ok no_quirks S std_strict) vds = true ->
+    forallb (var_default_ok S std) vds = true ->
     normalise no_quirks S reparse vds ms <> NFuel ->
     (accepts no_quirks S reparse vds (JObj ms) = true <-> coercible_all std S vds (JObj ms) = true).
 Proof.
@@ -255,8 +255,8 @@ Example accept_iff_coercible_partial_shaped_hyps :
   fields_nodup ex2_schema = true /\ oneof_no_defaults ex2_schema = true /\ field_defaults_ok weak_strict ex2_schema = true
   /\ json_nodup (JObj ex2_ms) = true /\ vars_nodup ex_vars = true
   /\ no_upload_ref ex2_schema ex_vars = true
-  /\ forallb (var_default_ok go_quirks ex2_schema weak_strict) ex_vars = true
-  /\ field_defaults_ok std_strict ex2_schema = true /\ forallb (var_default_ok no_quirks ex2_schema std_strict) ex_vars = true
+  /\ forallb (var_default_ok ex2_schema weak) ex_vars = true
+  /\ field_defaults_ok std_strict ex2_schema = true /\ forallb (var_default_ok ex2_schema std) ex_vars = true
   /\ pipeline go_quirks ex2_schema no_reparse ex_vars (JObj ex2_ms)
      = PDone (JObj [(b_y, num [55]);
                     (b_x, JArr [JObj [(b_k, num [50]);
@@ -272,7 +272,7 @@ Proof. vm_compute. discriminate. Qed.
 Example accept_iff_coercible_partial_hyps :
   fields_nodup ex_schema = true /\ oneof_no_defaults ex_schema = true /\ field_defaults_ok weak_strict ex_schema = true
   /\ json_nodup (JObj ex_ms) = true /\ vars_nodup ex_vars = true /\ no_upload_ref ex_schema ex_vars = true
-  /\ forallb (var_default_ok go_quirks ex_schema weak_strict) ex_vars = true
+  /\ forallb (var_default_ok ex_schema weak) ex_vars = true
   /\ accepts go_quirks ex_schema no_reparse ex_vars (JObj ex_ms) = true
   /\ jdepth (JObj ex_ms) = 3%nat.
 Proof. vm_compute. repeat split; reflexivity. Qed.
@@ -285,6 +285,16 @@ Example accept_iff_coercible_partial_unshaped :
   /\ normalise go_quirks ex2_schema no_reparse [mk_var b_x (TList (TNonNull (TNamed b_In))) None]
                   [(b_x, JArr [JNull; num [53]; JObj [(b_k, num [50])]])] <> NFuel.
 Proof. eexists. split; [vm_compute; reflexivity|vm_compute; discriminate]. Qed.
+
+(* defaults that need list coercion below their top level are covered since be45b91 (extraction before coercion):
+   query($x: [[Int!]] = [1], $y: [[Int]] = 5)  {}   ->   {"y":[[5]],"x":[[1]]} , accepted *)
+Example default_needing_nested_coercion :
+  let vds := [mk_var b_x (TList (TList (TNonNull (TNamed n_Int)))) (Some (VList [VInt t_1]));
+              mk_var b_y (TList (TList (TNamed n_Int))) (Some (VInt [53]))] in
+  forallb (var_default_ok (mk_schema []) weak) vds = true
+  /\ pipeline go_quirks (mk_schema []) no_reparse vds (JObj [])
+     = PDone (JObj [(b_y, JArr [JArr [num [53]]]); (b_x, JArr [JArr [num t_1]])]) None.
+Proof. vm_compute. split; reflexivity. Qed.
 
 (* ------------------------------------------------------------------ list coercion, unconditionally *)
 Theorem list_coercion_correct_proof : forall S j t,
